@@ -401,12 +401,16 @@ func libType(n string) reflect.Type { return desc.Type(desc.Named(n)) }
 
 var multiTags = []string{"valid", "alipay", "wechat"}
 
+// callTags: the tag names a call may ask for.  "Valid" differs from the default name in case only;
+// the types also carry "my_valid", a key that ENDS in the default name and is written before it.
+var callTags = []string{"valid", "alipay", "wechat", "valid", "Valid"}
+
 // genMultiTagType synthesises a struct type whose fields carry rule sets under
 // up to three tag names.
 func genMultiTagType(t *rapid.T, mg *msgGen, maxDepth int) (*structGen, desc.T) {
 	g := &structGen{t: t, mg: mg, tag: "valid", maxDepth: maxDepth, maxField: rapid.IntRange(1, 5).Draw(t, "maxField"),
 		containerMarks: []string{"required", "exist", "-"}, scalarKinds: cheapScalarKinds, unexported: true,
-		extraTags: []string{"alipay", "wechat"}}
+		extraTags: []string{"alipay", "wechat", "Valid", "my_valid"}}
 	if rapid.IntRange(0, 5).Draw(t, "wideType") == 3 {
 		// a wide, flat type (generated messages have dozens of fields): its analysis takes long enough to overlap with another one
 		g.maxField, g.maxDepth = rapid.SampledFrom([]int{17, 24, 40, 64}).Draw(t, "wideFields"), 0
